@@ -1,8 +1,12 @@
 """Dumper and correspondence harness for the automata engine model (coq/Model/Engine.v): C10, C11.
 
 dump_machine() walks a live cpppo machine (states, dfas, regex machines, octets/words/struct parsers) and
-emits the node list the Coq interpreter runs; anything the model does not cover (decide / predicate edges,
-callable limits, overridden process/terminate methods other than the known converters) raises Unsupported.
+emits the node list the Coq interpreter runs.  decide edges and callable limits are external calls: the dumper
+emits them as oracle-answered targets / limits, and impl_run() records their outcomes (decide.__call__ wrapped
+from outside, the callable limit of a dumped state wrapped on the instance) as the tapes the interpreter consumes.
+Side effects of move_if are not modelled, so data is compared only for machines without decide edges.  Anything
+else the model does not cover (recognizers, overridden process/terminate other than the known converters, odd
+struct formats) raises Unsupported.
 run_both() executes the same input through machine.run() and through the extracted interpreter."""
 import array, struct
 from vlib import core
@@ -29,7 +33,8 @@ def dict_leaves(d, prefix=''):
 
 
 FMT = {'B': (1, 0), 'b': (1, 1), '<H': (2, 0), '<h': (2, 1), '<I': (4, 0), '<i': (4, 1), '<Q': (8, 0), '<q': (8, 1),
-       '<f': (4, 0), '<d': (8, 0), 'H': (2, 0), 'h': (2, 1), 'I': (4, 0), 'i': (4, 1)}
+       '<f': (4, 0), '<d': (8, 0), 'H': (2, 0), 'h': (2, 1), 'I': (4, 0), 'i': (4, 1),
+       '>H': (2, 2), '>h': (2, 3), '>I': (4, 2), '>i': (4, 3), '>Q': (8, 2), '>q': (8, 3), '>f': (4, 2), '>d': (8, 2)}
 
 
 class Dump:
@@ -40,6 +45,9 @@ class Dump:
         self.post = []           # (ctx key path, input key path, kind) conversions done by terminate()
         self.floats = {}         # dst key -> struct format for float decodes
         self.objs = []           # the live state objects, for reset()
+        self.has_decide = False  # decide edges present: data not compared (move_if side effects are not modelled)
+        self.dec_tape = []       # outcomes of decide evaluations of the current run, in order
+        self.lim_tape = []       # values returned by callable limits in the current run, in order
 
     def reset(self):
         """put every dfa of the machine back into its freshly constructed condition (cycle/final/current persist
@@ -53,7 +61,7 @@ class Dump:
         p = canonical(path)
         return self.keys.setdefault(p, len(self.keys))
 
-    def lim(self, st, path, l):
+    def lim(self, st, path, l, what='limit'):
         if l is None:
             return (0, 0)
         if isinstance(l, bool):
@@ -62,7 +70,17 @@ class Dump:
             return (1, l)
         if isinstance(l, str):
             return (2, self.key(st.context(path, l)))
-        raise Unsupported('callable limit/repeat')
+        if callable(l) and what == 'limit':
+            tape = self.lim_tape
+            if not getattr(l, '_verif_recording', False):
+                def recording(*a, _orig=l, **k):
+                    v = _orig(*a, **k)
+                    tape.append(int(v) if isinstance(v, int) and not isinstance(v, bool) else -999999)
+                    return v
+                recording._verif_recording = True
+                st.limit = recording            # on the instance the harness created, for the harness's runs only
+            return (3, 0)
+        raise Unsupported('callable repeat')
 
     def visit(self, st, path):
         from cpppo import automata as A
@@ -89,14 +107,19 @@ class Dump:
             raise Unsupported('process override %s' % type(st).__name__)
         tf = type(st).terminate
         if isinstance(st, A.state_struct):
-            if tf is not A.state_struct.terminate:
+            from cpppo.server.enip import parser as _P
+            if tf is _P.BOOL.terminate:
+                self.bools = getattr(self, 'bools', set()); self.bools.add(canonical(st.context(path=path)))
+            elif tf in (_P.IPADDR.terminate, _P.IPADDR_network.terminate):
+                self.has_decide = True          # value converters (int -> dotted quad text): data not compared
+            elif tf is not A.state_struct.terminate:
                 raise Unsupported('struct terminate override %s' % type(st).__name__)
             if st.offset or st.index or st.struct_format not in FMT:
                 raise Unsupported('struct format %r' % st.struct_format)
             ours = st.context(path=path)
             size, signed = FMT[st.struct_format]
             nd['struct'] = (self.key(ours + st._input), self.key(ours), size, signed)
-            if st.struct_format in ('<f', '<d'):
+            if st.struct_format in ('<f', '<d', '>f', '>d'):
                 self.floats[canonical(ours)] = st.struct_format
         elif tf is A.state.terminate:
             pass
@@ -113,15 +136,22 @@ class Dump:
                 raise Unsupported('tuple symbol')
             if isinstance(enc, str):
                 enc = ord(enc)
-            if tgt is None:
-                nd['trans'].append((enc, None))
-            elif isinstance(tgt, A.state):
-                nd['trans'].append((enc, self.visit(tgt, path)))
-            else:
-                raise Unsupported('decide / list edge')
+            choice = tgt if type(tgt) is list else [tgt]
+            tl = []
+            for pot in choice:
+                if pot is None:
+                    tl.append((0,))
+                elif isinstance(pot, A.state):
+                    tl.append((1, self.visit(pot, path)))
+                elif isinstance(pot, A.decide):
+                    self.has_decide = True
+                    tl.append((2, None if pot.state is None else self.visit(pot.state, path)))
+                else:
+                    raise Unsupported('transition target %r' % type(pot).__name__)
+            nd['trans'].append((enc, tl))
         if isinstance(st, A.dfa_base):
             sub_path = st.context(path)
-            nd['sub'] = (self.visit(st.initial, sub_path), self.lim(st, path, st.repeat))
+            nd['sub'] = (self.visit(st.initial, sub_path), self.lim(st, path, st.repeat, 'repeat'))
         return nid
 
     def encode(self):
@@ -129,8 +159,15 @@ class Dump:
         for n in self.nodes:
             out += [n['proc'], 0 if n['store'] is None else 1, n['store'] or 0, int(n['term']), int(n['greedy']), n['limit'][0], n['limit'][1],
                     len(n['trans'])]
-            for enc, tgt in n['trans']:
-                out += [enc, 0 if tgt is None else 1, tgt or 0]
+            for enc, tl in n['trans']:
+                out += [enc, len(tl)]
+                for t in tl:
+                    if t[0] == 0:
+                        out += [0]
+                    elif t[0] == 1:
+                        out += [1, t[1]]
+                    else:
+                        out += [2, 0 if t[1] is None else 1, t[1] or 0]
             if n['sub']:
                 out += [1, n['sub'][0], n['sub'][1][0], n['sub'][1][1]]
             else:
@@ -152,12 +189,32 @@ def sym(c):
     return c if isinstance(c, int) else ord(c)
 
 
-def impl_run(mach, inp):
-    """-> ('fail', code) | ('ok', sent, terminal, {path: value})"""
+def impl_run(mach, inp, dump=None):
+    """-> ('fail', code) | ('ok', sent, terminal, {path: value}); with a dump, the decide / callable-limit outcomes of this
+    run are recorded into dump.dec_tape / dump.lim_tape"""
     import cpppo
     from cpppo import dotdict, automata as A
     source = cpppo.peekable(inp)
     data = dotdict()
+    saved_call = A.decide.__call__
+    if dump is not None:
+        dump.dec_tape.clear(); dump.lim_tape.clear()
+        tape = dump.dec_tape
+
+        def recording_call(self, machine=None, source=None, path=None, data=None):
+            r = saved_call(self, machine=machine, source=source, path=path, data=data)
+            tape.append(1 if r else 0)
+            return r
+        A.decide.__call__ = recording_call
+    try:
+        return _impl_run(mach, source, data)
+    finally:
+        A.decide.__call__ = saved_call
+
+
+def _impl_run(mach, source, data):
+    import array, struct
+    from cpppo import automata as A
     try:
         with mach as m:
             for _ in m.run(source=source, data=data):
@@ -188,8 +245,8 @@ def impl_run(mach, inp):
     return ('ok', source.sent, bool(term), vals)
 
 
-def model_run(dump, inp, fuel=400):
-    case = dump.encode() + [fuel, len(inp)] + [sym(c) for c in inp]
+def model_run(dump, inp, fuel=400, decs=(), lims=()):
+    case = dump.encode() + [fuel, len(inp)] + [sym(c) for c in inp] + [len(decs)] + list(decs) + [len(lims)] + list(lims)
     return case
 
 
@@ -205,10 +262,14 @@ def decode_model(dump, out):
     for _ in range(n):
         key, kind = out[i], out[i + 1]
         if kind == 0:
-            vals[inv[key]] = ('i', out[i + 2]); i += 3
+            if key >= 0:
+                vals[inv[key]] = ('i', out[i + 2])
+            i += 3
         else:
             ln = out[i + 2]
-            vals[inv[key]] = ('b', out[i + 3:i + 3 + ln]); i += 3 + ln
+            if key >= 0:                      # keys -1 / -2 are the oracle tapes' leftovers
+                vals[inv[key]] = ('b', out[i + 3:i + 3 + ln])
+            i += 3 + ln
     # conversions that terminate() methods of the string/integer wrappers perform on the collected input
     for ctx, sub, kind, decode in dump.post:
         src = sub if sub in vals else None
@@ -230,18 +291,23 @@ def decode_model(dump, out):
             return ('fail', 4)
     for k, f in dump.floats.items():
         if k in vals and vals[k][0] == 'i':
-            width = '<I' if f == '<f' else '<Q'
-            vals[k] = ('f', struct.unpack(f, struct.pack(width, vals[k][1]))[0])
+            width = 'I' if f[1] == 'f' else 'Q'
+            vals[k] = ('f', struct.unpack(f, struct.pack(f[0] + width, vals[k][1]))[0])
+    for k in getattr(dump, 'bools', ()):
+        if k in vals and vals[k][0] == 'i':
+            vals[k] = ('o', repr(bool(vals[k][1])))
     return ('ok', snt, term, vals)
 
 
-def same(a, b):
+def same(a, b, data=True):
     if a[0] != b[0]:
         return False
     if a[0] == 'fail':
         return a[1] == b[1]
     if a[1] != b[1] or a[2] != b[2]:
         return False
+    if not data:
+        return True
     va, vb = a[3], b[3]
     if set(va) != set(vb):
         return False
@@ -257,10 +323,17 @@ def same(a, b):
 
 def run_both(machines_inputs):
     """[(machine, dump, input)] -> [(impl_result, model_result)]"""
-    cases = [model_run(d, inp) for _, d, inp in machines_inputs]
+    impl, cases = [], []
+    for mach, d, inp in machines_inputs:
+        d.reset()
+        impl.append(impl_run(mach, inp, d))
+        cases.append(model_run(d, inp, decs=list(d.dec_tape), lims=list(d.lim_tape)))
     outs = core.run_model('engine', cases)
     res = []
-    for (mach, d, inp), o in zip(machines_inputs, outs):
-        d.reset()
-        res.append((impl_run(mach, inp), decode_model(d, o)))
+    for (mach, d, inp), ir, o in zip(machines_inputs, impl, outs):
+        try:
+            mr = decode_model(d, o)
+        except KeyError:
+            mr = ('fail', 4)
+        res.append((ir, mr))
     return res
